@@ -69,4 +69,11 @@ def run {S : Type} (g : Gen S) (v : Variant) (c : Cmd) (env : Env S) : Observed 
   { parseVals := pv, buildVals := bv, headerSeed := eff,
     headerAddr := if c.printsObject then some env.addr else none }
 
+/-- what an observer of the generator sees first: is the first event `seed s`, and how many draws
+precede the first seeding (the graph arguments' draws, if the seed is applied only after parsing) -/
+def firstEvents (v : Variant) (c : Cmd) : Bool × Nat :=
+  match c.seed with
+  | some _ => if v.seedAtParse then (true, 0) else (c.parseDraws == 0 && (effective v c.seed).isSome, c.parseDraws)
+  | none => (false, c.parseDraws + c.buildDraws)
+
 end Cnfgen.Cli
